@@ -135,6 +135,17 @@ pub struct Exchange {
     pub request_rejected_by_parser: bool,
 }
 
+pub struct Pending {
+    request: CoapRequest<Ep>,
+    x: Exchange,
+    pub call: AppCall,
+}
+
+pub enum Begun {
+    Done(Exchange),
+    NeedsApp(Box<Pending>),
+}
+
 pub struct Server {
     pub handler: BlockHandler<Ep>,
     pub budget: usize,
@@ -152,6 +163,19 @@ impl Server {
 
     /// One datagram in, at most one datagram out, exactly as a server built on the crate would do it.
     pub fn exchange(&mut self, ep: u32, req_bytes: &[u8], app: &dyn Fn(&AppCall) -> AppReply) -> Exchange {
+        match self.begin(ep, req_bytes) {
+            Begun::Done(x) => x,
+            Begun::NeedsApp(p) => {
+                let reply = app(&p.call);
+                self.finish(*p, reply)
+            }
+        }
+    }
+
+    /// First half of an exchange: parse + intercept_request. Either the handler answered (or failed) itself, or
+    /// the request is handed to the application; its reply comes back through `finish` - possibly after other
+    /// requests were begun (a server that processes requests concurrently).
+    pub fn begin(&mut self, ep: u32, req_bytes: &[u8]) -> Begun {
         let mut x = Exchange {
             reply: None,
             app_invoked: false,
@@ -166,44 +190,55 @@ impl Server {
             Ok(Ok(p)) => p,
             _ => {
                 x.request_rejected_by_parser = true;
-                return x;
+                return Begun::Done(x);
             }
         };
         let mut request = CoapRequest::from_packet(packet, Ep::new(ep));
         let handler = &mut self.handler;
         let r = guard(|| handler.intercept_request(&mut request));
-        let mut err = None;
         match r {
             Err(pn) => {
                 x.panic = Some((Stage::InterceptRequest, pn));
-                return x;
+                Begun::Done(x)
             }
-            Ok(Ok(true)) => x.handled_by_handler = true,
+            Ok(Ok(true)) => {
+                x.handled_by_handler = true;
+                Begun::Done(Self::conclude(request, x, None))
+            }
             Ok(Ok(false)) => {
-                // application
                 x.app_invoked = true;
                 let call = AppCall { ep, request: to_ref(&request.message) };
-                let reply = app(&call);
-                self.app_calls.push(call);
-                if let Some(resp) = request.response.as_mut() {
-                    resp.message.header.code = MessageClass::from(reply.code);
-                    for (n, v) in &reply.options {
-                        resp.message.add_option(CoapOption::from(*n), v.clone());
-                    }
-                    resp.message.payload = reply.payload.clone();
-                }
-                let handler = &mut self.handler;
-                match guard(|| handler.intercept_response(&mut request)) {
-                    Err(pn) => {
-                        x.panic = Some((Stage::InterceptResponse, pn));
-                        return x;
-                    }
-                    Ok(Ok(b)) => x.response_fragmented = Some(b),
-                    Ok(Err(e)) => err = Some((Stage::InterceptResponse, e)),
-                }
+                self.app_calls.push(call.clone());
+                Begun::NeedsApp(Box::new(Pending { request, x, call }))
             }
-            Ok(Err(e)) => err = Some((Stage::InterceptRequest, e)),
+            Ok(Err(e)) => Begun::Done(Self::conclude(request, x, Some((Stage::InterceptRequest, e)))),
         }
+    }
+
+    /// Second half: the application's reply is put into the prepared response, then intercept_response.
+    pub fn finish(&mut self, p: Pending, reply: AppReply) -> Exchange {
+        let Pending { mut request, mut x, .. } = p;
+        if let Some(resp) = request.response.as_mut() {
+            resp.message.header.code = MessageClass::from(reply.code);
+            for (n, v) in &reply.options {
+                resp.message.add_option(CoapOption::from(*n), v.clone());
+            }
+            resp.message.payload = reply.payload.clone();
+        }
+        let handler = &mut self.handler;
+        let mut err = None;
+        match guard(|| handler.intercept_response(&mut request)) {
+            Err(pn) => {
+                x.panic = Some((Stage::InterceptResponse, pn));
+                return x;
+            }
+            Ok(Ok(b)) => x.response_fragmented = Some(b),
+            Ok(Err(e)) => err = Some((Stage::InterceptResponse, e)),
+        }
+        Self::conclude(request, x, err)
+    }
+
+    fn conclude(mut request: CoapRequest<Ep>, mut x: Exchange, err: Option<(Stage, coap_lite::error::HandlingError)>) -> Exchange {
         if let Some((stage, e)) = err {
             let code = e.code.map(|c| u8::from(MessageClass::Response(c)));
             let msg = e.message.clone();
